@@ -225,5 +225,47 @@ func c10(args []string) int {
 		}
 	}
 	out.Put(map[string]interface{}{"kind": "absent", "mode": mode, "tried": tried, "resolved": absentBad, "first": firstAbs})
+	// ---- the answer for a name must not depend on what was looked up before: present and absent names interleaved,
+	//      each repeated, for both lookups
+	var uniq []string
+	for _, n := range base {
+		if names[n] == 1 {
+			uniq = append(uniq, n)
+		}
+	}
+	inconsistent, resolvedLater, hsteps := 0, 0, 0
+	var firstHist []map[string]interface{}
+	for k := 0; k < 300 && len(uniq) > 0; k++ {
+		kn := uniq[rng.Intn(len(uniq))]
+		ab := kn + []string{"x", "_", ".func9", "r"}[rng.Intn(4)]
+		if names[ab] > 0 {
+			continue
+		}
+		isVar := k%4 == 3
+		first := map[string][2]interface{}{}
+		seq := []string{kn, ab, ab, kn, ab, kn, kn, ab}
+		if rng.Intn(2) == 0 {
+			seq = []string{ab, kn, ab, ab, kn, kn, ab}
+		}
+		for i, n := range seq {
+			a, cls := c10Find(n, isVar)
+			hsteps++
+			if n == ab && cls == "ok" {
+				resolvedLater++
+				if len(firstHist) < 5 {
+					firstHist = append(firstHist, map[string]interface{}{"name": n, "var": isVar, "step": i, "sequence": seq, "addr": a})
+				}
+			}
+			if f, seen := first[n]; !seen {
+				first[n] = [2]interface{}{a, cls}
+			} else if f[0] != interface{}(a) || f[1] != interface{}(cls) {
+				inconsistent++
+				if len(firstHist) < 5 {
+					firstHist = append(firstHist, map[string]interface{}{"name": n, "var": isVar, "step": i, "sequence": seq, "first": fmt.Sprint(f), "now": fmt.Sprint(a, cls)})
+				}
+			}
+		}
+	}
+	out.Put(map[string]interface{}{"kind": "history", "mode": mode, "steps": hsteps, "inconsistent": inconsistent, "absent_resolved": resolvedLater, "first": firstHist})
 	return 0
 }
